@@ -1616,12 +1616,23 @@ def remove_stns_sinex(sinex, sites):
             if line.startswith(' '):
                 cols = line.split()
                 row = cols[0]
+                # Records of zeros may be left out: place the values by
+                # their column number (PARA2), not by their position
+                if matrix == 'lower':
+                    first = int(cols[1]) - 1
+                else:
+                    first = int(cols[1]) - int(row)
+                if row not in vcv:
+                    vcv[row] = []
+                vcv[row].extend(['0'] * (first - len(vcv[row])))
                 for i in range(2, len(cols)):
-                    try:
-                        vcv[row].append(cols[i])
-                    except KeyError:
-                        vcv[row] = []
-                        vcv[row].append(cols[i])
+                    vcv[row].append(cols[i])
+        for row in vcv:
+            if matrix == 'lower':
+                full = int(row)
+            else:
+                full = len(vcv) - (int(row) - 1)
+            vcv[row].extend(['0'] * (full - len(vcv[row])))
         block_end = solution_matrix_estimate[-1]
         del solution_matrix_estimate
         sub_vcv = {}
